@@ -15,8 +15,8 @@ CLAIMS = {
          "INV1 follows from its premises by the token-layout axiom of str::splitn (lemma in DESIGN.md App. C.7), not re-derived mechanically.", TECH_SUM),
  "C16": ("other", "Sibling agreement of the two v1 entry points against one window table; FromStr impls delegate; every field of the three to_owned functions is copied (Cow -> Cow::Owned of the same contents); 'static return types, no unsafe, no interior mutability; thorough tier: compile-fail witnesses.", "5/C16",
          "Agreement clause is structural (same window term, same field parser). Derived PartialEq is field-wise and Cow equality compares contents (axiom).", TECH_SUM + "; signature / type-walk queries; rustc compile-fail witnesses (thorough)"),
- "C18": ("other", "Two clauses only: no-CR-at-107 => HeaderTooLong (terminal) in both entry points; after CR + 1 byte the result is a function of input[..CR+2].", "5/C18",
-         "NOT decided: that the final verdict carries the complete flag on closed windows (defect D6: 'PROXY TCP4 1.1.1.1\\r\\n' stays incomplete for ever).", TECH_SUM),
+ "C18": ("other", "No-CR-at-107 => HeaderTooLong (terminal) in both entry points; after CR + 1 byte the result is a function of input[..CR+2]; default is_complete; Missing* only for absent tokens; and every incomplete outcome of the fully inlined entry points is tested for satisfiability together with 'the first CR is followed by a byte' using a token-layout theory of str::splitn (lengths and separator positions add up; first CR at a separator position). 13 outcome classes per entry point are reachable with a closed window on the current tree: genuine defects (family D6), each confirmed on the real library and listed by exact key in known_findings.json; the check prints KNOWN-FINDING for them and fails on any other class.", "5/C18 + 11",
+         "Decided relative to the token-layout axiom of str::splitn as encoded in engine/layout.py; the known findings are not repaired because a repair means restructuring parse_header (not a small safe patch).", TECH_SUM + "; token-layout theory (linear facts over token lengths and separator positions) for closed-window reachability"),
  "C02": ("proof", "Every guarded outcome of the loop-free v2 parser, extracted from MIR, is compared with an exhaustive reference decision table (24 accepting rows with the exact decoded value, all rejecting row families); holds for every byte string relative to the std axioms.", "5/C02",
          "Trusted: rustc MIR/const-eval, the extractor and normaliser, std axioms (slice len/index/starts_with/==, u16::from_be_bytes, copy_from_slice, Ipv4Addr::new, Ipv6Addr::from). Panic freedom of the same function is C03.", TECH_SUM),
  "C05": ("other", "Flag algebra, classification of all 28 error variants, the v2 prefix rows and the auto-detector's fallback condition are decided for every input; for v1 only necessary structural conditions.", "5/C05",
